@@ -242,6 +242,9 @@ class H2Client:
         )
         if settings:
             self.conn.local_settings = h2.settings.Settings(client=True, initial_values=dict(settings))
+            mfs = dict(settings).get(h2.settings.SettingCodes.MAX_FRAME_SIZE)
+            if mfs is not None:  # the client accepts what it announced from the start
+                self.conn.max_inbound_frame_size = mfs
         self.auto_ack = auto_ack
         self.pending = bytearray()  # bytes the client produced in reaction to server frames
         self.streams: Dict[int, dict] = {}
@@ -387,7 +390,7 @@ class H2Client:
                 return self.take() + args[0]
             else:
                 raise ValueError(name)
-        except h2.exceptions.ProtocolError:
+        except (h2.exceptions.ProtocolError, KeyError):
             # the command is no longer legal for the client (stream closed meanwhile): skip it
             return self.take()
         return self.take()
@@ -395,6 +398,13 @@ class H2Client:
     def cmd_enabled(self, name: str, args: tuple) -> bool:
         if name == "flush":
             return bool(self.pending)
+        if name in ("winup", "rst", "ack") and args[0]:
+            st = self.conn.streams.get(args[0])  # only for streams the client has opened
+            if st is None:
+                return False
+            if name == "rst" and st.closed:
+                return False
+            return True
         if name in ("datan", "trailers"):
             sid = args[0]
             try:
